@@ -8,17 +8,121 @@
                        fit on one line)
      namevalue.py      NameValueRecord.parse/add/get, normalize_name, unfold_lines,
                        split_lines (the same transcription as in Model/HttpMsg.v,
-                       repeated here so that this file depends on the character
-                       tables of Model/PyText.v only)
+                       and the latin-1 text primitives of Model/PyText.v, repeated
+                       here so that this file depends on Lib/ only)
      protocol/http/request.py  Response.parse_status_line
    on latin-1 text (Response fields are decoded as latin-1, so decoding is the
    identity).  Definitions only. *)
 From Coq Require Import String Ascii.
 From Coq Require Import List NArith Bool.
-From Wpull Require Import Lib.Decimal Lib.FsModel Model.PyText Model.Warc.
+From Wpull Require Import Lib.Decimal Lib.FsModel Model.Warc.
 Import ListNotations.
 Open Scope N_scope.
 Open Scope bool_scope.
+
+
+(* ================= Python text primitives on latin-1 (as in Model/PyText.v) ================= *)
+Definition in_range (lo hi c : N) : bool := (lo <=? c) && (c <=? hi).
+
+Fixpoint list_eqb (a b : list N) : bool :=
+  match a, b with
+  | [], [] => true
+  | x :: a', y :: b' => (x =? y) && list_eqb a' b'
+  | _, _ => false
+  end.
+
+Fixpoint starts_with (p s : list N) : bool :=
+  match p, s with
+  | [], _ => true
+  | x :: p', y :: s' => (x =? y) && starts_with p' s'
+  | _ :: _, [] => false
+  end.
+
+Fixpoint drop_while (f : N -> bool) (s : list N) : list N :=
+  match s with
+  | [] => []
+  | c :: r => if f c then drop_while f r else s
+  end.
+
+Fixpoint take_while (f : N -> bool) (s : list N) : list N :=
+  match s with
+  | [] => []
+  | c :: r => if f c then c :: take_while f r else []
+  end.
+
+(* (rev' = rev_append _ []: the linear-time reverse; List.rev is quadratic under vm_compute) *)
+Definition strip_with (f : N -> bool) (s : list N) : list N :=
+  rev' (drop_while f (rev' (drop_while f s))).
+
+(* str.isspace / str.strip() on latin-1 *)
+Definition py_space (c : N) : bool :=
+  in_range 9 13 c || in_range 28 32 c || (c =? 133) || (c =? 160).
+(* bytes.strip() / Py_ISSPACE *)
+Definition ascii_space (c : N) : bool := in_range 9 13 c || (c =? 32).
+
+Definition py_strip := strip_with py_space.
+Definition bytes_strip := strip_with ascii_space.
+
+(* line boundaries of str.splitlines() on latin-1 ... *)
+Definition py_linebreak (c : N) : bool :=
+  in_range 10 13 c || in_range 28 30 c || (c =? 133).
+(* ... and of a splitter that knows only CR, LF, CRLF *)
+Definition crlf_linebreak (c : N) : bool := (c =? 10) || (c =? 13).
+
+(* str.splitlines(): a boundary character ends the current line (CR LF is one
+   boundary); no empty last line *)
+Fixpoint splitlines_with (isb : N -> bool) (s : list N) : list (list N) :=
+  match s with
+  | [] => []
+  | c :: r =>
+      if isb c then
+        [] :: (if c =? 13
+               then match r with
+                    | d :: r' => if d =? 10 then splitlines_with isb r' else splitlines_with isb r
+                    | [] => splitlines_with isb r
+                    end
+               else splitlines_with isb r)
+      else
+        match splitlines_with isb r with
+        | [] => [[c]]
+        | l :: ls => (c :: l) :: ls
+        end
+  end.
+
+(* text.split(sep, 1) for a one-character separator: None when absent *)
+Fixpoint split_once (sep : N) (s : list N) : option (list N * list N) :=
+  match s with
+  | [] => None
+  | c :: r =>
+      if c =? sep then Some ([], r)
+      else match split_once sep r with
+           | None => None
+           | Some (a, b) => Some (c :: a, b)
+           end
+  end.
+
+(* ---- str.title() on latin-1 ---- *)
+Definition is_cased (c : N) : bool :=
+  in_range 65 90 c || in_range 97 122 c || (c =? 170) || (c =? 181) || (c =? 186)
+  || in_range 192 214 c || in_range 216 246 c || in_range 248 255 c.
+
+Definition to_title (c : N) : list N :=
+  if in_range 97 122 c then [c - 32]
+  else if c =? 181 then [924]
+  else if c =? 223 then [83; 115]
+  else if in_range 224 246 c || in_range 248 254 c then [c - 32]
+  else if c =? 255 then [376]
+  else [c].
+
+Definition to_lower (c : N) : list N :=
+  if in_range 65 90 c || in_range 192 214 c || in_range 216 222 c then [c + 32] else [c].
+
+Fixpoint title_from (prev_cased : bool) (s : list N) : list N :=
+  match s with
+  | [] => []
+  | c :: r => (if prev_cased then to_lower c else to_title c) ++ title_from (is_cased c) r
+  end.
+Definition py_title (s : list N) : list N := title_from false s.
 
 
 (* ================= namevalue.py ================= *)
